@@ -1,7 +1,7 @@
 """C01/C02/C03/C05/C17/C19: offline checkers over the codec driver's event log."""
 import re
 
-from . import build, codec, common as C, gen_driver as G, refmodel as R
+from . import build, codec, common as C, gen_driver as G, refmodel as R, schema as S
 from .findings import Report
 
 
@@ -140,6 +140,8 @@ def c01_main(prop="C01"):
     ses = Session(rep, schemas, cfgs)
     only_headers = prop == "C17"
     if only_headers:
+        schemas = schemas + [S.big_header_schema()]
+        ses = Session(rep, schemas, cfgs)
         rep.rule("covering corpus (incl. the header-layout schemas: every unsigned width for every level-header member, "
                  "reordered members, gaps, extra members, ref-typed and optional-typed members, numGroups/"
                  "numVarDataFields) + seeded random schemas; per message: fill_message_header alone and followed by "
@@ -170,13 +172,18 @@ def c01_main(prop="C01"):
                     num_prim = m.header_member(m.dimension(msg.groups[0]), "numInGroup")[1]
                     mx = 2 ** (8 * R.PRIM_SIZE[num_prim]) - 1
                     ns = [0, 1, 2, mx, rng.randrange(mx + 1)]
+                if bl > (1 << 20) and msg.groups:
+                    continue                      # the first group would sit gigabytes away
                 for n in ns:
-                    ln = hs + bl + (m.enc_size(m.dimension(msg.groups[0])) if msg.groups else 0) + 5
+                    # a block of gigabytes is not allocated: the filler touches the header only, 64 bytes behind it are watched
+                    ln = hs + min(bl, 64 if bl > (1 << 20) else bl) + (m.enc_size(m.dimension(msg.groups[0])) if msg.groups else 0) + 5
                     seed = rng.randrange(256)
                     cid = "h%d_%d" % (mi, len(cases))
                     cases.append(dict(id=cid, cmd="HDR %s %x %x %x %x" % (cid, mi, ln, seed, n), msg=msg, mi=mi, n=n, len=ln,
                                       seed=seed, what="fill headers numInGroup=%d" % n, kind="hdr"))
             for k in range(nscripts if not only_headers else max(2, nscripts // 3)):
+                if getattr(p.schema, "headers_only", False):
+                    break                         # 64-bit block lengths: nothing but headers can be written
                 vals = R.gen_values(m, msg, rng, force=(k < 4), big_data=([2] if k == 1 else None))
                 form = k % 4
                 total = R.message_size(m, msg, vals)
